@@ -3,6 +3,7 @@
 From Coq Require Import ZArith Lia List.
 From Trzsz Require Import Base.Bytes Gen.Consts Model.Path Model.Fs Model.Names Model.Wire
   Model.Transfer Model.Protocol Model.FaultTie.
+From Trzsz Require Model.Resume.
 Import ListNotations.
 
 Section FaultTieSenderProofs.
@@ -11,10 +12,12 @@ Variable H : list byte -> digest.
 Variable deq : digest -> digest -> bool.
 Variable zcomp : list (list byte) -> list (list byte).
 Variable zl : list byte -> list byte.
+Variable hx : list byte -> Resume.digest.
+Variable ahdr : src -> Z -> list byte.
 
 Notation msg := (tr_msg digest).
-Notation sender := (tr_sender digest H deq zcomp zl).
-Notation srun := (ft_srun digest H deq zcomp zl).
+Notation sender := (tr_sender digest H deq zcomp zl hx ahdr).
+Notation srun := (ft_srun digest H deq zcomp zl hx ahdr).
 Notation ack_of := (ft_ack digest).
 Notation sv2 := (send_v2 digest deq).
 Notation sv1 := (send_v1 digest deq).
@@ -76,18 +79,27 @@ Lemma sinv_step c st m g :
   sinv c st g -> sinv c (fst (sender c st m)) (ft_sghost_step digest st m (fst (sender c st m)) g).
 Proof.
   intro Inv. unfold tr_sender.
-  destruct (ss_phase st) as [| | |pending| |chs expect| | | | |] eqn:Ph.
+  destruct (ss_phase st) as [| |hsz hms| |pending| |chs expect| | | |] eqn:Ph.
   - (* SpNum *)
-    destruct m as [mn|mp|mn|mb|mf|md|mnames|mn|mnm|mnm msz|mlen mstp|md| |]; try seasy.
+    destruct m as [mn|mp|mn|mb|mf|md|mnames|hs hh| |mn|mnm|mnm msz|mlen mstp|md|hs hm| |]; try seasy.
     destruct (mn =? N.of_nat (length (ss_todo st))); seasy.
   - (* SpName *)
-    destruct m as [mn|mp|mn|mb|mf|md|mnames|mn|mnm|mnm msz|mlen mstp|md| |]; try seasy;
+    assert (Hnamed : forall e sc tdr nm sz,
+      sinv c (fst (tr_s_named digest hx ahdr c st e sc tdr nm sz)) (ft_sghost_step digest st m (fst (tr_s_named digest hx ahdr c st e sc tdr nm sz)) g)).
+    { intros e sc tdr nm sz. unfold tr_s_named.
+      destruct (tr_json_names c && tr_has_subs e); [destruct (tr_arch_entry ahdr e sc); seasy|].
+      destruct (te_isdir e); [seasy|]. destruct (0 <? sz); [|seasy].
+      unfold tr_s_resume. destruct (Resume.send_hashes _ _ _ _ _ _ _ _); [|seasy]. destruct (_ =? 0)%nat; seasy. }
+    destruct m as [mn|mp|mn|mb|mf|md|mnames|hs hh| |mn|mnm|mnm msz|mlen mstp|md|hs hm| |]; try seasy;
       destruct (ss_todo st) as [|[e sc] tdr] eqn:Td; try seasy;
-      destruct (tr_json_names c); try seasy; unfold tr_s_named;
-      destruct (te_isdir e); try seasy; destruct (0 <? _); seasy.
+      destruct (tr_json_names c) eqn:Ej; try seasy; apply Hnamed.
+  - (* SpHash: the answers to the HASH records of a resume *)
+    destruct m as [mn|mp|mn|mb|mf|md|mnames|hs hh| |mn|mnm|mnm msz|mlen mstp|md|hs hm| |]; try seasy.
+    unfold tr_s_hack. destruct (ss_todo st) as [|[e sc] tdr]; [seasy|].
+    destruct (negb hm); [seasy|]. destruct (_ =? _)%Z; [seasy|]. destruct (_ <? _)%Z; seasy.
   - (* SpSize *)
     destruct (ss_todo st) as [|[e sc] tdr] eqn:Td;
-      destruct m as [mn|mp|mn|mb|mf|md|mnames|mn|mnm|mnm msz|mlen mstp|md| |]; try seasy.
+      destruct m as [mn|mp|mn|mb|mf|md|mnames|hs hh| |mn|mnm|mnm msz|mlen mstp|md|hs hm| |]; try seasy.
     destruct (mn =? te_size e); [|seasy].
     unfold tr_s_data. destruct (tr_pipeline c) eqn:Pp.
     + cbn [fst]. unfold ft_sghost_step. rewrite Ph. cbn [ss_phase]. unfold sinv. cbn [ss_todo ss_phase]. rewrite ?Td.
@@ -100,12 +112,12 @@ Proof.
   - (* SpAcks *)
     unfold sinv in Inv. rewrite Ph in Inv.
     destruct (ss_todo st) as [|[e sc] tdr] eqn:Td.
-    { destruct m as [mn|mp|mn|mb|mf|md|mnames|mn|mnm|mnm msz|mlen mstp|md| |]; try seasy.
+    { destruct m as [mn|mp|mn|mb|mf|md|mnames|hs hh| |mn|mnm|mnm msz|mlen mstp|md|hs hm| |]; try seasy.
       - destruct pending as [|l ls]; [seasy|]. destruct (mlen =? l); [|seasy].
         cbn [fst]. unfold sinv. cbn [ss_todo]. rewrite ?Td. exact I.
       - cbn [fst tr_s_stay]. unfold sinv. rewrite ?Td. exact I. }
     destruct Inv as (Pp & Ne & Eq).
-    destruct m as [mn|mp|mn|mb|mf|md|mnames|mn|mnm|mnm msz|mlen mstp|md| |]; try seasy.
+    destruct m as [mn|mp|mn|mb|mf|md|mnames|hs hh| |mn|mnm|mnm msz|mlen mstp|md|hs hm| |]; try seasy.
     + (* TrSuccAck *)
       destruct pending as [|l ls]; [contradiction|]. destruct (mlen =? l) eqn:E; [|seasy].
       apply N.eqb_eq in E. subst l. cbn [fst]. unfold ft_sghost_step. rewrite Ph.
@@ -124,10 +136,10 @@ Proof.
   - (* SpFinal *)
     unfold sinv in Inv. rewrite Ph in Inv.
     destruct (ss_todo st) as [|[e sc] tdr] eqn:Td.
-    { destruct m as [mn|mp|mn|mb|mf|md|mnames|mn|mnm|mnm msz|mlen mstp|md| |]; try seasy.
+    { destruct m as [mn|mp|mn|mb|mf|md|mnames|hs hh| |mn|mnm|mnm msz|mlen mstp|md|hs hm| |]; try seasy.
       cbn [fst tr_s_stay]. unfold sinv. rewrite ?Td. exact I. }
     destruct Inv as (Pp & Eq).
-    destruct m as [mn|mp|mn|mb|mf|md|mnames|mn|mnm|mnm msz|mlen mstp|md| |]; try seasy.
+    destruct m as [mn|mp|mn|mb|mf|md|mnames|hs hh| |mn|mnm|mnm msz|mlen mstp|md|hs hm| |]; try seasy.
     + (* TrSuccInt *)
       destruct (te_size e <? mn) eqn:G; [seasy|]. destruct (mn =? te_size e) eqn:E.
       * unfold tr_s_md5. cbn [fst]. unfold ft_sghost_step. rewrite Ph. cbn [ss_phase]. unfold sinv. cbn [ss_todo ss_phase]. rewrite ?Td, Pp.
@@ -142,9 +154,9 @@ Proof.
   - (* SpV1 *)
     unfold sinv in Inv. rewrite Ph in Inv.
     destruct (ss_todo st) as [|[e sc] tdr] eqn:Td.
-    { destruct m as [mn|mp|mn|mb|mf|md|mnames|mn|mnm|mnm msz|mlen mstp|md| |]; seasy. }
+    { destruct m as [mn|mp|mn|mb|mf|md|mnames|hs hh| |mn|mnm|mnm msz|mlen mstp|md|hs hm| |]; seasy. }
     destruct Inv as (Pp & Eq).
-    destruct m as [mn|mp|mn|mb|mf|md|mnames|mn|mnm|mnm msz|mlen mstp|md| |]; try seasy.
+    destruct m as [mn|mp|mn|mb|mf|md|mnames|hs hh| |mn|mnm|mnm msz|mlen mstp|md|hs hm| |]; try seasy.
     destruct (mn =? expect) eqn:E; [|seasy]. apply N.eqb_eq in E. subst mn.
     assert (St : forall rest, sv1 (H (te_data e)) (zs (sg_sent digest g))
                    (map ack_of (sg_msgs digest g ++ [TrSuccInt digest expect]) ++ rest)
@@ -158,10 +170,9 @@ Proof.
       cbn [sg_sent sg_msgs]. split; [exact Pp|]. exact St.
   - (* SpMd5 *)
     destruct (ss_todo st) as [|[e sc] tdr] eqn:Td;
-      destruct m as [mn|mp|mn|mb|mf|md|mnames|mn|mnm|mnm msz|mlen mstp|md| |]; try seasy.
+      destruct m as [mn|mp|mn|mb|mf|md|mnames|hs hh| |mn|mnm|mnm msz|mlen mstp|md|hs hm| |]; try seasy.
     destruct (deq md (H (te_data e))); seasy.
-  - (* SpExit *) destruct m as [mn|mp|mn|mb|mf|md|mnames|mn|mnm|mnm msz|mlen mstp|md| |]; seasy.
-  - apply sinv_trivial. cbn. rewrite Ph. exact I.
+  - (* SpExit *) destruct m as [mn|mp|mn|mb|mf|md|mnames|hs hh| |mn|mnm|mnm msz|mlen mstp|md|hs hm| |]; seasy.
   - apply sinv_trivial. cbn. rewrite Ph. exact I.
   - apply sinv_trivial. cbn. rewrite Ph. exact I.
 Qed.
@@ -179,8 +190,8 @@ Proof.
   specialize (IH st1 (ft_sghost_step digest st m st1 g) Inv1 dn).
   destruct (srun c st1 (ft_sghost_step digest st m st1 g) r) as [[st2 outs2] dns]. cbn [snd] in *.
   intro In1. apply in_app_or in In1. destruct In1 as [In1|In1]; [|exact (IH In1)]. clear IH.
-  destruct (ss_phase st) as [| | |pending| |chs expect| | | | |] eqn:Ph; try (destruct In1; fail).
-  destruct m as [mn|mp|mn|mb|mf|md|mnames|mn|mnm|mnm msz|mlen mstp|md| |]; try (destruct In1; fail).
+  destruct (ss_phase st) as [| |hsz hms| |pending| |chs expect| | | |] eqn:Ph; try (destruct In1; fail).
+  destruct m as [mn|mp|mn|mb|mf|md|mnames|hs hh| |mn|mnm|mnm msz|mlen mstp|md|hs hm| |]; try (destruct In1; fail).
   destruct (ss_todo st) as [|[e sc] tdr] eqn:Td; [destruct In1|].
   unfold tr_sender in R. rewrite Ph, Td in R.
   destruct (deq md (H (te_data e))) eqn:Q.
@@ -200,7 +211,7 @@ Lemma sinv_init c ess : sinv c (fst (tr_sender_init digest c ess)) (ft_sghost0 d
 Proof. apply sinv_trivial. exact I. Qed.
 
 Theorem ft_send_bridge c ess ms dn :
-  In dn (snd (ft_send digest H deq zcomp zl c ess ms)) -> sverdict c dn = true.
+  In dn (snd (ft_send digest H deq zcomp zl hx ahdr c ess ms)) -> sverdict c dn = true.
 Proof.
   unfold ft_send. pose proof (sinv_init c ess) as I0.
   destruct (tr_sender_init digest c ess) as [st outs]. cbn [fst] in I0.
